@@ -53,7 +53,6 @@ var Registry = map[string]func(c *Ctx, arg string) error{
 		}
 		if arg == "crash" {
 			RunSyncCrashEnum(c)
-			RunSyncWriteError(c)
 			return nil
 		}
 		if arg == "retrieve" {
@@ -69,6 +68,7 @@ var Registry = map[string]func(c *Ctx, arg string) error{
 		RunSyncStopQueued(c)
 		RunSyncHandOverStop(c)
 		RunSyncP2PAfterIdle(c)
+		RunSyncWriteError(c)
 		if c.Thorough() {
 			RunSyncRandom(c, 150)
 		} else {
